@@ -1052,7 +1052,14 @@ class Model:
                 GraphBuilder(to_float32=to_float32).add(*nodes_and_vars).build_model()
             )
             nodes_and_vars = [*model.nodes.values(), *model.vars.values()]
-            model.pop_nodes_and_vars()
+
+            # release the members of the temporary model. its "_model*" nodes become
+            # part of this model, so the injected seed inputs must stay attached
+            # (pop_nodes_and_vars() would detach them)
+            for node in model.nodes.values():
+                node._unset_model()
+            model._nodes.clear()
+            model._vars.clear()
 
         nodes = [nv for nv in nodes_and_vars if isinstance(nv, Node)]
         nodes = list(dict.fromkeys(nodes).keys())
